@@ -918,6 +918,28 @@ func genDynamic(r *hx.Run, rng *gen.Rng) {
 		w := mkDynamic(rng, 0)
 		emit(dctx{0, 0, rng.Intn(13), rng.Intn(13)}, w)
 	}
+	// round 3: long lists of items a list can hold (Text / RichText / TextField, 1-2 lines each) under a
+	// Max.Height around the sum of their heights, so that 5..9 items are drawn (drawn=7..9 had 1-2 cases)
+	n = 60
+	if r.Thorough {
+		n = 600
+	}
+	for i := 0; i < n; i++ {
+		w := &wspec{kind: 'D', cursor: rng.Chance(2, 5), gap: gen.Pick(rng, []int{0, 0, 1})}
+		k := rng.Range(6, 9)
+		for j := 0; j < k; j++ {
+			switch rng.Intn(3) {
+			case 0:
+				w.kids = append(w.kids, mkWidget(rng, shapeT{'T', rng.Bool(), 0}, gen.Pick(rng, []string{"hi", "a\nb", "世界"})))
+			case 1:
+				w.kids = append(w.kids, mkWidget(rng, shapeT{'R', rng.Bool(), 0}, gen.Pick(rng, []string{"hi", "a\nb"})))
+			default:
+				w.kids = append(w.kids, mkWidget(rng, shapeT{'F', false, 0}, gen.Pick(rng, []string{"", "field"})))
+			}
+		}
+		emit(dctx{0, 0, gen.Pick(rng, []int{3, 4, 10, 80}), rng.Range(5, 22)}, w)
+		r.Count("dynamic:long-list-family")
+	}
 }
 
 // ---------------------------------------------------------------------------------------------
